@@ -35,13 +35,16 @@ def oracle(spec, res):
             entered.append(x[1])
     if len(set(entered)) != len(entered):
         return "twice", "a request was executed twice: %s" % entered
-    for tag in entered:
-        if tag == "later":
+    # dispatch order at the worker, lock-control requests included (they travel the same queue)
+    key_tag = {e[1]: e[4] for e in o["trace"] if e[0] == "Issue"}
+    dispatched = [key_tag.get(e[1]) for e in o["trace"] if e[0] == "Exec"]
+    for tag in dispatched:
+        if tag is None or tag == "later":
             continue
         caller, idx = tag.split(".")
         if seen.get(caller, -1) >= int(idx):
             return "order", "caller %s: call %s executed after call %d of the same thread; execution order %s" % (
-                caller, tag, seen[caller], entered)
+                caller, tag, seen[caller], dispatched)
         seen[caller] = int(idx)
     return None
 
@@ -51,7 +54,7 @@ def gen_specs(ck, n):
     specs = []
     for _ in range(n):
         nl, nr = rng.choice([(2, 2), (3, 1), (1, 3), (0, 3), (3, 0), (2, 1), (1, 2), (4, 0), (0, 4)])
-        mk = lambda: [rng.choice(["ok", "ok", "exc", "ok", "badres"]) for _ in range(rng.randint(2, 5))]
+        mk = lambda: [rng.choice(["ok", "ok", "exc", "ok", "badres", "islocked", "islocked"]) for _ in range(rng.randint(2, 5))]
         specs.append(dict(local=[mk() for _ in range(nl)], remote=[mk() for _ in range(nr)],
                           fault=rng.choice(["none", "none", "none", "remove", "disconnect", "stop_client"]),
                           nb=[rng.random() < 0.7 for _ in range(4)], burst=True))
